@@ -107,8 +107,13 @@ def probe(mod, t, postponed, placement):
     cname, bname, lname = f"X{n}", f"XB{n}", f"Later{n}"
     ann = RT.render(t, postponed).replace("Later", lname)
     head = "from __future__ import annotations\n" if postponed else ""
+    FLAGS = {"noinit-nocompare": "default=None, init=False, compare=False", "noinit": "default=None, init=False", "nocompare": "default=None, compare=False",
+             "kwonly": "default=None, kw_only=True"}
     if placement == "alone":
         src = f"{head}@dataclass(frozen=True)\nclass {cname}(ASTNode):\n    f: {ann}\n"
+    elif placement in FLAGS:
+        # the dataclass options of a field (not an init argument, not compared, keyword-only) have no bearing on its kind
+        src = f"{head}@dataclass(frozen=True)\nclass {cname}(ASTNode):\n    f: {ann} = field({FLAGS[placement]})\n"
     elif placement == "inherited":
         src = f"{head}@dataclass(frozen=True)\nclass {bname}(ASTNode):\n    f: {ann}\n\n@dataclass(frozen=True)\nclass {cname}({bname}):\n    g: int = 0\n"
     else:  # the base declares f with the other kind; the derived class overrides it
@@ -131,7 +136,7 @@ def probe(mod, t, postponed, placement):
             # never a successful instantiation either
             try:
                 NODE_REGISTRY.clear()
-                cls(None)
+                cls() if "noinit" in placement else (cls(f=None) if placement in FLAGS else cls(None))
                 return "other:instantiated-after-rejection", "static accessor rejected the class but it can be instantiated"
             except InvalidFieldAnnotations:
                 return "rejected", "at first use"
@@ -149,7 +154,9 @@ def probe(mod, t, postponed, placement):
             v = value_for(t, g, lambda: g[lname]()) if verdict == "child" and RT.classify(t) == "child" else None
             if verdict == "child" and RT.classify(t) != "child":
                 return verdict, ""
-            inst = cls(v)
+            if placement in FLAGS and "noinit" in placement:
+                return verdict, ""   # no valid value can be supplied for a field that is not an init argument
+            inst = cls(f=v) if placement in FLAGS else cls(v)
             got = [c for c in inst.get_child_nodes()]
             if verdict == "child" and not got:
                 return "other:child-not-enumerated", "instance built but the child is not enumerated"
@@ -194,6 +201,8 @@ def run_shard(cfg):
             if not RT.renderable(t, postponed):
                 continue
             placements = ["alone", "inherited", "override"] if (cfg["tier"] == "thorough" and d <= 2) or d <= 1 else ["alone"]
+            if d <= 1:
+                placements += ["noinit-nocompare", "noinit", "nocompare", "kwonly"]
             for placement in placements:
                 mine = idx % cfg["of"] == cfg["k"]
                 idx += 1
